@@ -27,16 +27,16 @@ READY = True
 LEVEL = "fault_enumeration"
 TECHNIQUE = ("runtime monitoring: returned dicts of run_contingency_parallel under seeded schedule perturbation (n_procs x delay "
              "seeds, observed completion orders logged) compared with run_contingency")
-CASES = {"quick": 32, "thorough": 1000}       # a pool worker costs 1.5-2.5 CPU-s after its fork (page faults): ~14 CPU-s per case
+CASES = {"quick": 32, "thorough": 500}       # a pool worker costs 1.5-2.5 CPU-s after its fork (page faults): ~14 CPU-s per case
 BUDGET = {"quick": 60, "thorough": 1500}
 CASE_TIMEOUT = 240
 WATCHDOG = {"quick": 90, "thorough": 180}
 FLOORS = {"quick": {"nontrivial": 12, "max_skip_frac": 0.3,
-                    "tags": {"n_procs=8": 2, "n_procs=1": 16, "unwrapped_run": 2, "trafo_cases": 8, "several_pool_sizes": 5},
+                    "tags": {"n_procs=8": 1, "n_procs=4": 3, "n_procs=1": 16, "unwrapped_run": 2, "trafo_cases": 8, "several_pool_sizes": 5},
                     "extras": {"parallel_runs": 40, "runs_completed_out_of_task_order": 8, "runs_with_several_pids": 15,
                                "dict_comparisons": 45, "distinct_orders_in_case": 25}},
-          "thorough": {"nontrivial": 300, "max_skip_frac": 0.3, "tags": {"n_procs=8": 100, "unsolved_case": 10, "unwrapped_run": 100},
-                       "extras": {"parallel_runs": 3000, "runs_completed_out_of_task_order": 800, "distinct_orders_in_case": 1500}}}
+          "thorough": {"nontrivial": 150, "max_skip_frac": 0.3, "tags": {"n_procs=8": 40, "unsolved_case": 3, "unwrapped_run": 40},
+                       "extras": {"parallel_runs": 1500, "runs_completed_out_of_task_order": 400, "distinct_orders_in_case": 700}}}
 RULE = ("one case = one generated N-1 set-up (network, ratings, case dict, options as in C14, <= 8 outages in quick) x n_procs = 1 "
         "plus 1-2 (quick) / 3 (thorough) pool sizes drawn from {2,3,4,8} x seeded delay patterns (1 in quick, 2 in thorough), one "
         "pool run with plain runpp in 30 % of the cases; "
@@ -140,7 +140,7 @@ def run_case(seed, tier, case_no):
     # every pool worker costs 1.5-2.5 CPU-s of page faults after the fork: n_procs = 1 always, plus 1-2 (quick) or 3 (thorough)
     # different pool sizes per case; one of the pool runs uses plain runpp with probability 0.3
     k = (2 if g.B(0.4) else 1) if tier == "quick" else 3
-    n_par = sorted(int(x) for x in g.rng.choice([2, 3, 4, 8], size=k, replace=False, p=[0.35, 0.3, 0.2, 0.15]))
+    n_par = sorted(int(x) for x in g.rng.choice([2, 3, 4, 8], size=k, replace=False, p=[0.4, 0.3, 0.22, 0.08] if tier == "quick" else [0.3, 0.3, 0.2, 0.2]))
     dseeds = [g.I(0, 10 ** 6) for _ in range(1 if tier == "quick" else 2)]
     runs = [("p1_d0", 1, True, dseeds[0])]
     plain = n_par[g.I(0, k - 1)] if g.B(0.3) else None
